@@ -831,7 +831,22 @@ def _prefix_ok(ref, path) -> bool:
 # ---------------------------------------------------------------------------------------------------------------------
 # curated multi-container scenario histories (always run, both tiers)
 
+def _long_chain(n=12):
+    """n containers: patch file names cross from one to two digits (foo.p9.ih5 -> foo.p10.ih5); each patch replaces a value and adds one"""
+    h = [["set", "a/x", 0], ["set", "b/n0", 0]]
+    for i in range(1, n):
+        h += [["commit"], ["del", "a/x"], ["set", "a/x", i], ["set", f"b/n{i}", i]]
+        if i % 4 == 0:
+            h.append(["del", f"b/n{i - 1}"])
+    return h
+
+
 SCENARIOS = {
+    # many patches (reopen by name must find every container, also beyond .p9)
+    "long-chain-12": _long_chain(12),
+    # keys from the documented alphabet that are regular-expression metacharacters
+    "regex-metachar-keys": [["mkgrp", "a+b"], ["set", "a+b/x", 1], ["mkgrp", "k(1)/c*"], ["set", "k(1)/c*/d?", 2], ["commit"], ["set", "a+b/y", 3], ["copy", "a+b", "e|f"],
+                            ["move", "k(1)/c*", "$g"], ["commit"], ["set", "$g/x[0]", 4], ["setattr", "a+b", "{i}", "v"], ["set", "^h/\\j", 5], ["copy", "$g", "a+b/z"]],
     # replace-then-touch over three containers (the replaced subtree must not come back)
     "replace-then-touch": [["set", "a/x", 1], ["set", "a/y", 1], ["commit"], ["del", "a"], ["mkgrp", "a"], ["set", "a/z", 2], ["commit"], ["set", "a/w", 3]],
     "replace-then-touch-min": [["set", "a/x", 1], ["commit"], ["del", "a"], ["mkgrp", "a"], ["commit"], ["set", "a/w", 3]],
